@@ -123,7 +123,9 @@ func (tqs *TaskQueueSet) Iterate(doFn func(queue *TaskQueue)) {
 		return
 	}
 
-	main := tqs.GetMain()
+	// Do not call GetMain() here: it takes the read lock again, and a recursive
+	// read lock deadlocks when a writer (DoWithLock, Add, Remove) is waiting in between.
+	main := tqs.Queues[tqs.MainName]
 	if main != nil {
 		doFn(main)
 	}
